@@ -236,4 +236,75 @@ def jsonFaithfulFields : Fields → List (String × CV) → Bool
     && jsonFaithfulFields rest m
 end
 
+
+/-! ## Variables nested in a literal -/
+
+/-- What the client supplied for the variables, as abstract client values (a variable that is
+    not listed has no runtime value). -/
+abbrev Supplied := List (String × CV)
+
+mutual
+/-- The literal the client *means*: every variable replaced by the literal spelling of the value
+    supplied for it. A variable without a value is `null` as a list item (and at the top) and
+    *nothing* as an input-object field (§3.10: "no entry"). -/
+def inline (σ : Supplied) : Lit → Lit
+  | .var n =>
+    match σ.lookup n with
+    | some v => v.toLit
+    | none => .null
+  | .list xs => .list (inlineL σ xs)
+  | .obj fs => .obj (inlineF σ fs)
+  | .int z => .int z
+  | .float h => .float h
+  | .str s => .str s
+  | .bool b => .bool b
+  | .null => .null
+  | .enum n => .enum n
+def inlineL (σ : Supplied) : List Lit → List Lit
+  | [] => []
+  | x :: xs => inline σ x :: inlineL σ xs
+def inlineF (σ : Supplied) : List (String × Lit) → List (String × Lit)
+  | [] => []
+  | (k, l) :: ps =>
+    match l with
+    | .var n =>
+      match σ.lookup n with
+      | some v => (k, v.toLit) :: inlineF σ ps
+      | none => inlineF σ ps
+    | l => (k, inline σ l) :: inlineF σ ps
+end
+
+/-- The variable `$n`, written where a value of type `L` is expected (`item`: as an item of a list
+    literal), stands for the supplied client value: either nothing was supplied and it has no
+    runtime value, or its runtime value is the variable route's coercion of the supplied value at
+    the location's type. For an item of a list-of-lists type the supplied value must itself be a
+    list (or null): a *variable* of type `[Int]` accepts the single item `5` (→ `[5]`), the item
+    `5` of a list literal does not — the one place where "through a variable" legitimately
+    accepts more than "written in place" (§3.11 applies to the variable's own value). -/
+def VarStandsFor (P : Parse) (σ : Supplied) (vars : Vars) (L : Ty) (item : Bool) (n : String) : Prop :=
+  match σ.lookup n with
+  | none => vars.lookup n = none
+  | some v =>
+    v.wf = true ∧ jsonFaithful L v = true ∧
+    (∃ x, vars.lookup n = some x ∧ coerceVar P L v.toJson true = some x) ∧
+    (item = true → isListish L = true → (v.isList || v.isNull) = true)
+
+mutual
+/-- Every variable inside the literal, at the type its position has, stands for its supplied
+    value (`VarStandsFor`); variables may sit at the top, in list items, in input-object fields
+    (also of a single object given for a list), at any depth. -/
+def Nested (P : Parse) (σ : Supplied) (vars : Vars) : Ty → Bool → Lit → Prop
+  | L, item, .var n => VarStandsFor P σ vars L item n
+  | .nonNull t, item, l => Nested P σ vars t item l
+  | .list t, _, .list xs => ∀ x ∈ xs, Nested P σ vars t true x
+  | .list t, false, .obj lfs => Nested P σ vars t false (.obj lfs)
+  | .inputObj _ fs, _, .obj lfs =>
+    NestedFields P σ vars fs lfs ∧ ∀ p ∈ lfs, fs.hasName p.1 = true ∨ containsVar p.2 = false
+  | _, _, l => containsVar l = false
+def NestedFields (P : Parse) (σ : Supplied) (vars : Vars) : Fields → List (String × Lit) → Prop
+  | .nil, _ => True
+  | .cons name ty _ rest, lfs =>
+    (∀ p ∈ lfs, p.1 = name → Nested P σ vars ty false p.2) ∧ NestedFields P σ vars rest lfs
+end
+
 end ApiFu.C05
